@@ -747,4 +747,31 @@ theorem zygo_quant_error_any_resolution (x W S O : ℚ) (res : Nat) (R : Int) (h
 
 example : ((2 : Nat), (131072 : Int)) ∈ zygoPhaseRes := by decide
 example : phaseResOf modelPhaseRes 3 = none ∧ phaseResOf modelPhaseRes 0 = some 4096 := by decide
+
+/-! ## re-saving a loaded map; Code V wavelength units (session 3) -/
+
+theorem truncRat_intCast (n : ℤ) : truncRat (n : ℚ) = n := by
+  simp only [truncRat]; split_ifs <;> simp
+
+/-- saving a map that was read from a file: in exact arithmetic the writer's counts of the reader's values are the
+counts of the file again (`trunc(n·q / q) = n`), for every count, wavelength rounding and step — the one-count loss the
+correspondence observes on re-saved interferograms (family `ifg.history`) is floating-point only and stays within one step -/
+theorem zygo_requantise_exact (r32 : ℚ → ℚ) (wvl : ℚ) (n : ℤ) (hW : r32 (zygoWvlWrite wvl) ≠ 0) :
+    truncRat (Generated.C14.zygoWritePre r32 (Generated.C14.zygoReadValue n (r32 (zygoWvlWrite wvl)) 1 1 phaseRes1) wvl) = n := by
+  rw [zygo_step_consistent r32 _ wvl hW]
+  have e : Generated.C14.zygoReadValue n (r32 (zygoWvlWrite wvl)) 1 1 phaseRes1
+      / Generated.C14.zygoReadValue 1 (r32 (zygoWvlWrite wvl)) 1 1 phaseRes1 = (n : ℚ) := by
+    simp only [Generated.C14.zygoReadValue, phaseRes1]
+    push_cast
+    field_simp
+  rw [e, truncRat_intCast]
+
+/-- Code V units: a file that declares a physical wavelength `w` with the scale given per that wavelength (`SSZ·w`)
+reads every count as the same nanometres as the library's `WVL 1.0` file — over the source's own scaling formula -/
+theorem codev_unit_invariant (n w ssz : ℚ) (hw : w ≠ 0) (hs : ssz ≠ 0) :
+    Generated.C14.cvReadValue n w (ssz * w) = Generated.C14.cvReadValue n 1 ssz := by
+  simp only [Generated.C14.cvReadValue]
+  field_simp
+
+example : (fun y : ℚ => y) (zygoWvlWrite (6328 / 10000)) ≠ 0 := by norm_num [zygoWvlWrite]
 end C14
